@@ -29,12 +29,25 @@ Proof. split; [apply forallb_negb_filter | apply filter_nil_forallb]. Qed.
 
 Lemma state_ok_split t :
   state_ok t = true <->
-  mutated_defaults t = [] /\ all_own t = true /\ globals_read t = [] /\ mutated_class_attrs t = [].
+  mutated_defaults t = [] /\ all_own t = true /\ globals_read t = [] /\ mutated_class_attrs t = [] /\ process_leaks t = [].
 Proof.
   unfold state_ok. split.
-  - intro H. apply andb_true_iff in H as [H H4]. apply andb_true_iff in H as [H H3]. apply andb_true_iff in H as [H1 H2].
-    repeat split; auto using is_nil_true.
-  - intros (H1 & H2 & H3 & H4). rewrite H1, H2, H3, H4. reflexivity.
+  - intro H. apply andb_true_iff in H as [H H5]. apply andb_true_iff in H as [H H4]. apply andb_true_iff in H as [H H3].
+    apply andb_true_iff in H as [H1 H2]. repeat split; auto using is_nil_true.
+  - intros (H1 & H2 & H3 & H4 & H5). rewrite H1, H2, H3, H4, H5. reflexivity.
+Qed.
+
+Lemma process_ok_spec t :
+  process_leaks t = [] <->
+  forall s, In s (st_process t) -> ps_import_time s = true \/ ps_restored s = true \/ known_proc_site s = true.
+Proof.
+  unfold process_leaks. split.
+  - intros H s Hs. destruct (proc_bad s) eqn:E.
+    + assert (In s (filter proc_bad (st_process t))) by (apply filter_In; auto). rewrite H in H0. destruct H0.
+    + unfold proc_bad in E. destruct (ps_import_time s), (ps_restored s), (known_proc_site s); simpl in E; auto; discriminate E.
+  - intro H. apply forallb_negb_filter. apply forallb_forall. intros s Hs. unfold proc_bad.
+    destruct (H s Hs) as [A|[A|A]]; rewrite A; destruct (ps_import_time s), (ps_restored s), (known_proc_site s);
+      simpl; auto; discriminate.
 Qed.
 
 Lemma classmeta_ok_spec t :
@@ -120,6 +133,70 @@ Section HistoryP.
     exact (proj1 (Hreads x _ _ (step_agree x y w0))).
   Qed.
 End HistoryP.
+
+(* history independence when the cells that are both read and written are RESTORED by every call (process state such as the
+   working directory, when every change is undone on every path): such cells behave as constants along any history *)
+Section HistoryRestored.
+  Variables C V call res : Type.
+  Variable sem : call -> gworld C V -> res * gworld C V.
+  Variables Rd Wr : call -> list C.
+  Hypothesis Hreads : reads_only C V call res sem Rd Wr.
+  Hypothesis Hwrites : writes_only C V call res sem Wr.
+  Hypothesis Hstable : stable_reads C V call res sem Rd Wr.
+
+  Lemma step_agree_r x y w : agree C V (Rd x) (snd (sem y w)) w.
+  Proof.
+    intros c Hc. destruct (Hstable x y c Hc) as [N|R].
+    - apply Hwrites. exact N.
+    - apply R.
+  Qed.
+
+  Lemma run_agree_r : forall hist x w0, agree C V (Rd x) (run C V call res sem hist w0) w0.
+  Proof.
+    induction hist as [|y h IH]; intros x w0 c Hc; simpl.
+    - reflexivity.
+    - rewrite (IH x _ c Hc). exact (step_agree_r x y w0 c Hc).
+  Qed.
+
+  Theorem history_independent_restored :
+    forall hist x w0, fst (sem x (run C V call res sem hist w0)) = fst (sem x w0).
+  Proof. intros hist x w0. exact (proj1 (Hreads x _ _ (run_agree_r hist x w0))). Qed.
+
+  (* a restored cell keeps its initial value along every history *)
+  Lemma restored_cell_constant c : restores C V call res sem c ->
+    forall hist w0, run C V call res sem hist w0 c = w0 c.
+  Proof.
+    intro R. induction hist as [|y h IH]; intro w0; simpl; auto. rewrite IH. apply R.
+  Qed.
+End HistoryRestored.
+
+Lemma no_interference_stable C V call res sem Rd Wr :
+  no_interference C call Rd Wr -> stable_reads C V call res sem Rd Wr.
+Proof. intros H x y c Hc. left. intro Hw. exact (H y x c Hw Hc). Qed.
+
+(* non-vacuity: call true saves cell 0, overwrites it, restores it, and returns cell 0 + cell 1; call false writes cell 1.
+   cell 0 is read and written (so no_interference fails) but restored *)
+Definition exr_sem (x : bool) (w : gworld nat nat) : nat * gworld nat nat :=
+  if x then (w 0 + w 2, fun c => if Nat.eqb c 0 then w 0 else w c) else (w 0, fun c => if Nat.eqb c 1 then w 0 else w c).
+
+Example history_restored_example :
+  forall hist x w0, fst (exr_sem x (run nat nat bool nat exr_sem hist w0)) = fst (exr_sem x w0).
+Proof.
+  apply (history_independent_restored nat nat bool nat exr_sem (fun x => if x then [0; 2] else [0]) (fun x => if x then [0] else [1])).
+  - intros x w1 w2 H. destruct x; simpl in *.
+    + assert (E0 : w1 0 = w2 0) by (apply H; simpl; auto). assert (E2 : w1 2 = w2 2) by (apply H; simpl; auto).
+      split; [rewrite E0, E2; reflexivity|]. intros c [<-|[]]. simpl. exact E0.
+    + assert (E0 : w1 0 = w2 0) by (apply H; simpl; auto). split; [exact E0|]. intros c [<-|[]]. simpl. exact E0.
+  - intros x w c H. destruct x; simpl in *.
+    + destruct (Nat.eqb c 0) eqn:E; auto. apply Nat.eqb_eq in E. subst. reflexivity.
+    + destruct (Nat.eqb c 1) eqn:E; auto. apply Nat.eqb_eq in E. subst. exfalso. apply H. left. reflexivity.
+  - intros x y c Hc. destruct x, y; simpl in *.
+    + destruct Hc as [<-|[<-|[]]]; [right|left; intros [E|[]]; discriminate E].
+      intros x w. destruct x; simpl; reflexivity.
+    + destruct Hc as [<-|[<-|[]]]; left; intros [E|[]]; discriminate E.
+    + destruct Hc as [<-|[]]. right. intros x w. destruct x; simpl; reflexivity.
+    + destruct Hc as [<-|[]]. left. intros [E|[]]. discriminate E.
+Qed.
 
 (* a keyed memo whose values are a function of the key (and of constants) is transparent: every history of lookups
    returns f on each key, whatever was looked up before, and the table stays consistent *)
